@@ -333,8 +333,8 @@ def touch : Ptr → Prog Unit
 def CC_SEQ_SIZE : Nat := 10
 def CC_SEQ_STEP : Nat := 5
 def two64 : Nat := 18446744073709551616
-/-- `dmax -= n` on a size_t -/
-def subw (d n : Nat) : Nat := (d + two64 - n % two64) % two64
+/-- `dmax -= n` on a size_t (written so that symbolic evaluation never recurses on the 2^64 literal) -/
+@[irreducible] def subw (d n : Nat) : Nat := (two64 + d - n % two64) % two64
 
 structure Seq where
   ccPos : Nat := 0
